@@ -148,6 +148,31 @@ def kinds():
         K[name][1].append(('other configuration instance', False, other[name]))
     return K
 
+FRESH = {}
+def fresh_tables(names):
+    """outcome of every call of every kind on fresh objects, each kind in its own fresh Python process"""
+    import subprocess, sys, json, os
+    from concurrent.futures import ThreadPoolExecutor
+    def one(name):
+        p = subprocess.run([sys.executable, os.path.abspath(__file__), '--fresh', name], stdout=subprocess.PIPE, stderr=subprocess.PIPE, text=True, env=dict(os.environ))
+        if p.returncode != 0: raise core.Machinery('fresh-table subprocess failed for %s: %s' % (name, p.stderr[-500:]))
+        return name, json.loads(p.stdout.strip().splitlines()[-1])
+    with ThreadPoolExecutor(12) as ex: return dict(ex.map(one, names))
+
+def replay_kinds(ctx, jobs):
+    """replay the sequences of each kind on long-lived objects, one worker process per kind (kinds are independent; each process
+    has its own module-level singletons, which stay alive across that kind's sequences)"""
+    import subprocess, sys, json, os
+    from concurrent.futures import ThreadPoolExecutor
+    def one(job):
+        name, use = job
+        f = os.path.join(ctx.work, 'seq_%s.json' % name.replace('/', '_'))
+        json.dump(use, open(f, 'w'))
+        p = subprocess.run([sys.executable, os.path.abspath(__file__), '--replay', name, f], stdout=subprocess.PIPE, stderr=subprocess.PIPE, text=True, env=dict(os.environ))
+        if p.returncode != 0: raise core.Machinery('replay subprocess failed for %s: %s' % (name, p.stderr[-500:]))
+        return name, list(zip(use, json.loads(p.stdout.strip().splitlines()[-1])))
+    with ThreadPoolExecutor(14) as ex: return list(ex.map(one, jobs))
+
 STATEFUL = {'ECB', 'CBC', 'ECB-nopad', 'CBC-nopad', 'CTR', 'CTS_ECB', 'CTS_CBC', 'Blake2b', 'Blake2s', 'Keccak', 'Keccak-200', 'SHA3', 'Skein', 'Skein-mac-long', 'Skein-tree', 'AES', 'TLSH', 'Nilsimsa', 'HMAC', 'MD6', 'MD6-seq'}
 
 def run(ctx):
@@ -158,23 +183,27 @@ def run(ctx):
         seqs[D] = [p for p in r['printed'] if isinstance(p, list) and p and isinstance(p[0], int)]
         if len(seqs[D]) != sum(7 ** j for j in range(1, D + 1)): raise core.Machinery('MC_Objects printed %d sequences for depth %d' % (len(seqs[D]), D))
     K = kinds()
+    global FRESH
+    FRESH = fresh_tables(sorted(K))
     traces = []
+    jobs = []
     for name, (factory, alpha) in K.items():
         assert len(alpha) == 7, name
-        # the table: every call on fresh objects
-        tab = []
-        for lab, judged, fn in alpha:
-            tab.append(dict(key=name + '/' + lab, out=outcome(fn, Env(factory))))
-        fresh = {t['key']: t['out'] for t in tab}
         D = (4 if name in STATEFUL else 3) if big else (3 if name in STATEFUL else 2)
         use = seqs[D]
         if big and D == 4: use = [s for i, s in enumerate(use) if len(s) < 4 or i % 3 == 0]        # depth 4: every third sequence
-        for s in use:
-            env = Env(factory); evs = []
-            for c in s:
-                lab, judged, fn = alpha[c - 1]
-                key = name + '/' + lab
-                evs.append(dict(key=key, judged=bool(judged and fresh[key].startswith('ok:')), out=outcome(fn, env)))
+        # sequences that START with the differently configured instance go first: then that instance is the first of its class
+        # to run in its process (a cache keyed on too little is filled by it and met by the long-lived object afterwards)
+        jobs.append((name, sorted(use, key=lambda q: (q[0] != 7, len(q)))))
+    for name, res in replay_kinds(ctx, jobs):
+        alpha = K[name][1]
+        tab = [dict(key=name + '/' + lab, out=FRESH[name][lab]) for lab, judged, fn in alpha]
+        fresh = {t['key']: t['out'] for t in tab}
+        for s, outs in res:
+            evs = []
+            for c, o in zip(s, outs):
+                lab, judged, fn = alpha[c - 1]; key = name + '/' + lab
+                evs.append(dict(key=key, judged=bool(judged and fresh[key].startswith('ok:')), out=o))
             traces.append(dict(tab=tab, ev=evs, kind=name, seq=s)); ctx.mark((name, str(s)))
     ctx.exhaustive_subspaces.append('all call sequences of length <= %s over a 7-call alphabet per kind (%d kinds): default call, call with other options, call that raises, incremental/auxiliary call, sibling instance, singleton / other message, differently configured instance'
                                     % ('4 (stateful kinds, every third of depth 4) / 3' if big else '3 (kinds with shared state) / 2', len(K)))
@@ -196,6 +225,22 @@ def run(ctx):
     def corrupt(t): t['ev'][-1]['out'] = t['ev'][-1]['out'] + '00'; t['ev'][-1]['judged'] = True; return t
     ctx.binding_selftest('trace/Trace_Objects.tla', dict(tab=t0['tab'], ev=t0['ev']), lambda t: len(t['ev']), corrupt, 'Trace_Objects: a result differing from the fresh-object result')
     ctx.assumptions += ['judged calls are the one-shot operations that succeed on a fresh object; calls that raise, unfinished incremental calls and auxiliary entry points only perturb',
-                        'explicit configuration calls (setkey, setrate, assigning outlen/rounds) are not in the alphabets', 'module-level singletons are compared with a fresh equally configured object; they stay alive across histories (deterministic order)',
+                        'explicit configuration calls (setkey, setrate, assigning outlen/rounds) are not in the alphabets', 'the reference outcome of every call comes from fresh objects in a pristine interpreter (one subprocess per kind)', 'module-level singletons are compared with a fresh equally configured object; they stay alive across histories (deterministic order)',
                         'RC4 is a continuing stream by design (C06) and not a kind here']
     return ctx.finish('TLC-enumerated call sequences replayed on long-lived objects / siblings / singletons; every judged outcome compared by TLC with the outcome of the same call on a fresh object')
+
+
+if __name__ == '__main__':
+    import sys, json
+    if len(sys.argv) == 3 and sys.argv[1] == '--fresh':
+        core.setup_repo_import()
+        factory, alpha = kinds()[sys.argv[2]]
+        print(json.dumps({lab: outcome(fn, Env(factory)) for lab, judged, fn in alpha}))
+    if len(sys.argv) == 4 and sys.argv[1] == '--replay':
+        core.setup_repo_import()
+        factory, alpha = kinds()[sys.argv[2]]
+        out = []
+        for s in json.load(open(sys.argv[3])):
+            env = Env(factory)
+            out.append([outcome(alpha[c - 1][2], env) for c in s])
+        print(json.dumps(out))
